@@ -109,8 +109,6 @@ Section Inst.
       :: match o with Ok (v, _) => enc_val v | _ => [] end
       :: map enc_ev (rev log).
   Definition tobs (s : str) : list nat := enc_out enc_pty (parse_type_str lt s).
-  Definition kobs (s : str) : list (list nat) :=
-    map (map N.to_nat) (strip false (tokenize ex_specials s)).
 End Inst.
 """
 
@@ -964,7 +962,7 @@ def model_eval(tag: str, groups, nfiles=4):
         if cases:
             txt += (f"Eval vm_compute in map (fun p => pobs lo_{k} lt_{k} (fst p) (snd p)) ["
                     + ";\n ".join(f"({ni}, {coq_str(s)})" for ni, s in cases) + "].\n")
-            txt += (f"Eval vm_compute in map (fun s => map (map N.to_nat) (tokenize ex_specials s)) ["
+            txt += (f"Eval vm_compute in map (tokenize ex_specials) ["
                     + ";\n ".join(coq_str(s) for _, s in cases) + "].\n")
             n += 2
         if tys:
@@ -1162,8 +1160,7 @@ def parser_fuzz(rep: C.Report, rng: random.Random, n: int) -> dict:
         groups.append((gl, cases, tys))
     res = model_eval(f"{rep.pid}_fuzz_{rep.tier}", groups)
     counts = {"cases": 0, "type_cases": 0, "outcomes": {}, "undeclared": {}, "disagreements": 0,
-              "type_disagreements": 0, "token_disagreements": 0, "max_time_s": 0.0, "model_crash": 0,
-              "mutated_or_random": 0}
+              "type_disagreements": 0, "token_disagreements": 0, "max_time_s": 0.0, "model_crash": 0}
     shown = set()
     ndis = 0
     for (gl, cases, tys), (pob, tok, tob) in zip(groups, res):
